@@ -266,6 +266,18 @@ theorem iter_unique (s t : St) (hs : Inv s) (ht : Inv t) (h : ∀ ver a, denS s 
     iterAddrs s = iterAddrs t := by
   unfold iterAddrs; rw [shown_unique s t hs ht h]
 
+/-- the hypotheses are satisfiable: two canonical sets (one of them holding both families) -/
+example : Inv (newOfNet ⟨4, 0x0a000005, 24⟩) ∧ Inv (addNet (newOfNet ⟨4, 0x0a000005, 24⟩) ⟨6, 1, 128⟩) := by
+  have h1 := (new_net_spec ⟨4, 0x0a000005, 24⟩ (by simp [Net.WF, width])).1
+  exact ⟨h1, (add_net_spec _ h1 ⟨6, 1, 128⟩ (by simp [Net.WF, width])).1⟩
+example : String.ofList (reprText .platform (addNet (newOfNet ⟨4, 0x0a000005, 24⟩) ⟨6, 1, 128⟩)) =
+    "IPSet(['10.0.0.0/24', '::1/128'])" := by
+  have e : addNet (newOfNet ⟨4, 0x0a000005, 24⟩) ⟨6, 1, 128⟩ = [⟨4, 0x0a000000, 24⟩, ⟨6, 1, 128⟩] := by decide +kernel
+  rw [e]; unfold reprText reprStrs reprSet
+  rw [show sortNets [⟨4, 0x0a000000, 24⟩, ⟨6, 1, 128⟩] = [⟨4, 0x0a000000, 24⟩, ⟨6, 1, 128⟩] from
+    iterCidrs_sorted _ (by decide +kernel)]
+  decide +kernel
+
 /-- instances: a set and the same set built in another order print the same; a different set does not -/
 example : reprStrs .platform [⟨4, 0x0a000000, 24⟩, ⟨6, 1, 128⟩] = reprStrs .platform [⟨6, 1, 128⟩, ⟨4, 0x0a000000, 24⟩] := by
   unfold reprStrs reprSet
